@@ -768,8 +768,13 @@ class Run:
                 fid = getattr(f, '_fid', None)
                 if fid is None:
                     fid = self.func_ids.setdefault(f, 1000 + len(self.func_ids))
-                if hasattr(f, '_dbusInterface'):
-                    out += [hs(nm), '%d' % fid, hs(f._dbusInterface), hs(f._dbusMethod)]
+                # what @dbusMethod stored on the function: `_dbusInterface` / `_dbusMethod` as the fast path, else
+                # the attributes located by decorating a dummy (harness/c10_locate.py; private names may be renamed)
+                from harness import c10_locate
+                from txdbus import objects as _objects
+                deco = c10_locate.deco_of_library(_objects, f)
+                if deco is not None:
+                    out += [hs(nm), '%d' % fid, hs(deco[0]), hs(deco[1])]
                 else:
                     out += [hs(nm), '%d' % fid, '~', '~']
         return ' '.join(out)
